@@ -328,9 +328,9 @@ def bbk_queries(db, prop, tier):
         try:
             q = bbk.build(db, spec, k, mode)
         except bx2c.Unsupported as e:
-            skipped.append(('decay0_bb %s mode %d' % (cname, mode), 'NOT COVERED: ' + str(e)[:300]))
+            skipped.append(('decay0_bb %s mode %s' % (cname, mode), 'NOT COVERED: ' + str(e)[:300]))
             continue
-        qs.append(Query('bbk/%s/mode%d' % (cname, mode), q['c'], checks=['--no-standard-checks', '--bounds-check', '--pointer-check', '--conversion-check', '--div-by-zero-check', '--signed-overflow-check'],
+        qs.append(Query('bbk/%s/mode%s' % (cname, mode if isinstance(mode, int) else 'M2'), q['c'], checks=['--no-standard-checks', '--bounds-check', '--pointer-check', '--conversion-check', '--div-by-zero-check', '--signed-overflow-check'],
                         meta=q['meta'], timeout=2400, mem_gb=10))
     if prop == 'C03':
         for name in sorted(bbk.parse_spec(spec)['lemma']):
